@@ -45,7 +45,11 @@ def run(tier):
            ["tz2025b", "--grid", 120 if q else 1, "--nbhd", 120 if q else 3600, "--pygrid", pyg],
            ["features", "--grid", 30 if q else 1, "--nbhd", 120 if q else 3600, "--pygrid", 86400 if q else 6 * 3600 + 1800],
            ["unsupported", "--grid", 30 if q else 1, "--nbhd", 120 if q else 3600, "--pygrid", 86400 if q else 6 * 3600 + 1800]]
+    # the compiler's --strict option: a value that does not fit removes the zone (with a reason) instead of truncating it
+    big.append(["unsupported", "--strict", "--targets", "python", "--grid", 30, "--pygrid", 86400])
+    big.append(["features", "--strict", "--targets", "python", "--grid", 30, "--pygrid", 86400])
     if not q:
+        big.append(["tz2025b", "--strict", "--targets", "python", "--grid", 60, "--pygrid", 86400 * 3 + 3600 * 5])
         big.append(["tz2025b-raw", "--grid", 5])
         big.append(["recon-x", "--grid", 60, "--nbhd", 30, "--san", "--targets", "arduino"])
     nmut = 8 if q else 200
